@@ -4,7 +4,7 @@ EXTENDS OpProgram
 L_Leaves == <<
   V("x", RealD), V("y", Dom(0, <<2>>)), NS(Q(2, 1)), NS(Q(1, 2)),
   TenS(<<>>, <<2>>, 0, <<Q(4, 1), Q(1, 4)>>) >>
-L_UnOps == <<Op0("sqrt"), Op0("log"), Op0("exp"), Op0("log1p"), Op0("reciprocal"), Red1("sum", NoAxis, 0), Red1("sum", 0, 1), Red1("prod", -1, 0), Red1("amax", NoAxis, 0), [n |-> "getslice", p |-> <<IntP(1)>>], [n |-> "reshape", p |-> <<1, 2>>]>>
+L_UnOps == <<Op0("sqrt"), Op0("log"), Op0("exp"), Op0("log1p"), Op0("reciprocal"), Red1("sum", NoAxis, 0), Red1("sum", 0, 1), Red1("prod", -1, 0), Red1("amax", NoAxis, 0), Red1("sum", NoAxis, 1), Red1("amax", NoAxis, 1), [n |-> "getslice", p |-> <<IntP(1)>>], [n |-> "reshape", p |-> <<1, 2>>]>>
 L_BinOps == <<Op0("truediv"), Op0("pow"), Op0("mul"), Op0("sub"), Op0("logaddexp")>>
 L_ConOps == <<>>
 =============================================================================
